@@ -235,6 +235,38 @@ mut("c07-char-counter-by-bytes", "C07", "C07.R3", (TK, "(tokens, next_state, byt
 mut("c07-token-built-in-parser", "C07", "C07.R4", (PA, "    let mut content_parts: Vec<ContentPart<'a, 'b, 'c, 'd>> = vec![];\n", "    let mut content_parts: Vec<ContentPart<'a, 'b, 'c, 'd>> = vec![];\n    let _probe = tokenizer::Token { kind: tokenizer::TokenKind::Text, value: \"\", start: 0, byte_start: 0, end: 0, byte_end: 1 };\n"))
 mut("c07-merge-skipped", "C07", "C07.R4", (TK, "    tokens.into_iter().fold(vec![], |mut acc, cur| {", "    if tokens.len() < 2 {\n        return tokens;\n    }\n    tokens.into_iter().fold(vec![], |mut acc, cur| {"))
 
+# ---------------------------------------------------------------- C01
+mut("c01-saturating-sub-dropped", "C01", "C01.OB", (BI, "first_indent_len.saturating_sub(indent_ofs)", "first_indent_len - indent_ofs"))
+mut("c01-merge-ranges-empty-guard-dropped", "C01", "C01.OB", (FM, "    if ranges.is_empty() {\n        return;\n    }\n\n    let mut cursor = Some(ranges.len() - 1);", "    let mut cursor = Some(ranges.len() - 1);"))
+mut("c01-checked-get-to-index", "C01", "C01.OB", (LB, "    match bytes.get(*cursor) {\n        Some(b' ') => CheckResult::Skip,\n        Some(b'\\t') => CheckResult::Skip,\n        Some(b'\\n') => CheckResult::Found,\n        None => CheckResult::None,\n        _ => CheckResult::None,\n    }", "    match bytes[*cursor] {\n        b' ' => CheckResult::Skip,\n        b'\\t' => CheckResult::Skip,\n        b'\\n' => CheckResult::Found,\n        _ => CheckResult::None,\n    }"))
+mut("c01-merge-markers-cursor-guard-dropped", "C01", "C01.OB", (RM, "if start_cursor > end_cursor || marker.end >= end_marker.start {", "if marker.end >= end_marker.start {"))
+mut("c01-byte-start-off-by-one", "C01", "C01.OB", (TK, "                byte_start_pos = byte_pos;", "                byte_start_pos = byte_pos + 1;"))
+mut("c01-empty-filter-dropped", "C01", "C01.OB", (RM, "if !range.is_empty() {", "if true {"))
+mut("c01-new-unwrap", "C01", "C01.OB", (PA, "    tree(tokens, 0, &mut content_parts, vec![]);", "    let _first = tokens.first().unwrap();\n    tree(tokens, 0, &mut content_parts, vec![]);"))
+mut("c01-block-seam-guard-dropped", "C01", "C01", (BI, "        if bytes.get(start_byte_pos) != Some(&b'\\n') {\n            return vec![];\n        }\n", ""))
+mut("c01-splice-without-rebase", "C01", "C01.OB", (RM, """                    acc.extend(child_markers[start_cursor..end_cursor].iter().map(
+                        |(range, pair)| {
+                            let pair = match pair {
+                                Some(p) if start_cursor <= *p && *p < end_cursor => {
+                                    Some(*p - start_cursor + current + 1)
+                                }
+                                _ => None,
+                            };
+                            (range.clone(), pair)
+                        },
+                    ));""", "                    acc.extend(child_markers[start_cursor..end_cursor].to_owned());"))
+mut("c01-quote-start-plus-two", "C01", "C01.OB", (EP, "state = State::ValueWithDoubleQuote(pos + 1);", "state = State::ValueWithDoubleQuote(pos + 2);"))
+mut("c01-indent-zero-guard-dropped", "C01", "C01.OB", (IR, "            if cursor == 0 {\n                break false;\n            }\n\n            cursor -= 1;", "            cursor -= 1;"))
+mut("c01-indent-bounds-guard-dropped", "C01", "C01.OB", (IR, "if cursor >= bytes.len() || !content.is_char_boundary(cursor) || bytes[cursor] != b'\\n' {", "if !content.is_char_boundary(cursor) || bytes[cursor] != b'\\n' {"))
+mut("c01-cli-filename-test-inverted", "C01", "C01.OB", (CLI, "    if args.filename.is_none() {\n        if atty::isnt", "    if args.filename.is_some() {\n        if atty::isnt"))
+mut("c01-list-end-minus-two", "C01", "C01.OB", (LS, "    let line_end =\n        find_next_line_break_pos(content, bytes, end - 1, false).unwrap_or(content.len());", "    let line_end =\n        find_next_line_break_pos(content, bytes, end - 2, false).unwrap_or(content.len());"))
+mut("c01-summary-broken-in-callee", "C01", "C01.S", (LB, "            CheckResult::Found => break Some(cursor),\n            CheckResult::None => {\n                if pause_on_char {\n                    break None;\n                }\n            }\n        }\n\n        if cursor == 0 {", "            CheckResult::Found => break Some(cursor + 1),\n            CheckResult::None => {\n                if pause_on_char {\n                    break None;\n                }\n            }\n        }\n\n        if cursor == 0 {"))
+mut("c01-final-flush-plus-one", "C01", "C01.OB",
+    (TK, "        Some(_) => match token_kind {", "        Some((byte_pos, _)) => match token_kind {"),
+    (TK, "            _ => Some(Token {\n                value: &source[byte_start_pos..],", "            _ => Some(Token {\n                value: &source[byte_start_pos..byte_pos + 1],"))
+mut("c01-unsafe-unchecked", "C01", "C01.unsafe", (LS, "    let bytes = content.as_bytes();\n    let line_start", "    let bytes = content.as_bytes();\n    let _probe = unsafe { content.get_unchecked(0..0) };\n    let line_start"))
+mut("c01-removed-len-before-push", "C01", "C01.OB", (RM, "                positions.push((marker.start - removed_len, *pair_pos));\n                removed_len += marker.end - marker.start;", "                removed_len += marker.end - marker.start;\n                positions.push((marker.start - removed_len, *pair_pos));"))
+
 # ---------------------------------------------------------------- benign variants (every rule silent)
 benign("b-c05-single-expression", (TL, "if self.current_time < expires.unwrap() {\n            return false;\n        }\n\n        true", "self.current_time >= expires.unwrap()"))
 benign("b-c05-format-shorthand", (TL, 'parse_from_str(&expires_str, "%Y-%m-%d %H:%M:%S %z")', 'parse_from_str(&expires_str, "%F %T %z")'))
@@ -257,6 +289,14 @@ benign("b-parser-if-chain", (EP, "State::ValueWithNoQuote => {\n                
 
 benign("b-cli-match-instead-of-iflet", (CLI, "    if let Some(filename) = args.output {\n        let mut f = File::create(filename).expect(\"file not found\");\n        f.write_all(output.as_bytes())\n            .expect(\"something went wrong writing the file\");\n    } else {\n        print!(\"{}\", output);\n    }", "    match args.output {\n        Some(filename) => {\n            let mut f = File::create(filename).expect(\"file not found\");\n            f.write_all(output.as_bytes())\n                .expect(\"something went wrong writing the file\");\n        }\n        None => print!(\"{}\", output),\n    }"))
 benign("b-cli-format-if", (CLI, "    match list_json {\n        true => ListFormat::JSON,\n        false => ListFormat::PrettyString,\n    }", "    if list_json {\n        ListFormat::JSON\n    } else {\n        ListFormat::PrettyString\n    }"))
+
+benign("b-c01-len-eq-zero", (FM, "    if ranges.is_empty() {\n        return;\n    }\n\n    let mut cursor", "    if ranges.len() == 0 {\n        return;\n    }\n\n    let mut cursor"))
+benign("b-c01-let-else", (PA, "        if t.is_none() {\n            break (cursor, None);\n        }\n\n        let t: &tokenizer::Token<'a, 'b, 'c> = t.unwrap();", "        let Some(t) = t else {\n            break (cursor, None);\n        };"))
+benign("b-c01-guard-commuted", (RM, "if start_cursor > end_cursor || marker.end >= end_marker.start {", "if end_cursor < start_cursor || end_marker.start <= marker.end {"))
+benign("b-c01-indent-guard-commuted", (IR, "            if cursor == 0 {\n                break false;\n            }", "            if 0 == cursor {\n                break false;\n            }"))
+benign("b-c01-functions-reordered", (LB, "#[derive(Debug)]\nenum CheckResult {\n    Skip,\n    Found,\n    None,\n}\n\nfn check(", "// moved below\n#[derive(Debug)]\nenum CheckResult {\n    Skip,\n    Found,\n    None,\n}\n\n#[inline]\nfn check("))
+benign("b-c12-rebase-guard-commuted", (RM, "Some(p) if start_cursor <= *p && *p < end_cursor => {", "Some(p) if *p >= start_cursor && end_cursor > *p => {"))
+benign("b-c17-loop-form", (RM, "                if pending_range.start >= range.end {\n                    break;\n                }", "                if range.end <= pending_range.start {\n                    break;\n                }"))
 
 with open(os.path.join(os.path.dirname(os.path.abspath(__file__)), "mutants.json"), "w") as f:
     json.dump(C, f, indent=1)
